@@ -150,6 +150,18 @@ def gen(seed, tier):
                 st['from'] = frm
             if op in ('inject', 'send') and baker and rng.random() < 0.35:
                 st['minconf'] = rng.choice([1, 1, 2])
+            if op == 'autofill' and rng.random() < 0.2:
+                # caller-supplied fee / limits: the counters are still the client's business
+                kw = {}
+                for name, val in (('fee', rng.choice([1000, 50000])), ('gas_limit', rng.choice([5000, 100000])), ('storage_limit', rng.choice([0, 300]))):
+                    if rng.random() < 0.7:
+                        kw[name] = val
+                if kw:
+                    st['kw'] = kw
+            if op == 'fill' and rng.random() < 0.15:
+                st['kw'] = {'gas_limit': rng.choice([5000, 100000]), 'storage_limit': rng.choice([0, 300])}
+            if op == 'send' and rng.random() < 0.15:
+                st['kw'] = {'gas_reserve': rng.choice([0, 500]), 'burn_reserve': rng.choice([0, 50])}
             if op == 'inject' and rng.random() < 0.2:
                 st['prevalidate'] = False
             faults = {}
@@ -335,6 +347,10 @@ def simplify(scn):
         if st.get('minconf'):
             c = cp()
             del c['steps'][i]['minconf']
+            yield c
+        if st.get('kw'):
+            c = cp()
+            del c['steps'][i]['kw']
             yield c
         if st.get('prevalidate') is False:
             c = cp()
